@@ -155,7 +155,7 @@ func TestVerifC19(t *testing.T) {
 	}
 
 	nFwd := 0
-	n := run.N(6000, 120000)
+	n := run.N(3000, 60000)
 	keepCase := func(c c19KeepCase, i int, rng *verifkit.Rand) {
 		remote := c.Remote
 		run.Input(c, false)
